@@ -308,6 +308,8 @@ def hoist(lines, fname):
                 if lines[j][1].strip() == '---':   # separator: what follows stays inside the body
                     j += 1
                     break
+                if lines[j][1].strip().startswith(('proof {', 'proof{', 'let ghost ')):   # implicit separator
+                    break
                 block.append(lines[j])
                 j += 1
             # find the header end in `out`
